@@ -79,3 +79,5 @@ func Verified(owner string, msgPtr interface{}) bool { return false }
 func VerifiedBy(did string) bool                     { return false }
 func DeepEq(a, b interface{}) bool { return false }
 func Trace(label string, v interface{}) {}
+func StrContains(a, b string) bool { return false }
+func Rollback(snap int) {}
